@@ -39,6 +39,7 @@ import (
 	"math"
 	"strconv"
 
+	"github.com/cloudwego/dynamicgo/conv"
 	"github.com/cloudwego/dynamicgo/internal/json"
 	"github.com/cloudwego/dynamicgo/internal/native/types"
 	"github.com/cloudwego/dynamicgo/internal/rt"
@@ -150,7 +151,7 @@ func (m apiJSConv) Read(ctx context.Context, p *thrift.BinaryProtocol, field *th
 			return err
 		}
 		for i := 0; i < n; i++ {
-			err := appendInt(p, thrift.Type(et), out)
+			err := appendInt(ctx, p, thrift.Type(et), out)
 			if err != nil {
 				return err
 			}
@@ -160,12 +161,23 @@ func (m apiJSConv) Read(ctx context.Context, p *thrift.BinaryProtocol, field *th
 		}
 		*out = append(*out, ']')
 	default:
-		return appendInt(p, field.Type().Type(), out)
+		return appendInt(ctx, p, field.Type().Type(), out)
 	}
 	return nil
 }
 
-func appendInt(p *thrift.BinaryProtocol, typ thrift.Type, out *[]byte) error {
+// byteAsUint8 tells if the conv.Options carried by ctx ask for unsigned bytes (default is int8)
+func byteAsUint8(ctx context.Context) bool {
+	switch opts := ctx.Value(conv.CtxKeyConvOptions).(type) {
+	case conv.Options:
+		return opts.ByteAsUint8
+	case *conv.Options:
+		return opts != nil && opts.ByteAsUint8
+	}
+	return false
+}
+
+func appendInt(ctx context.Context, p *thrift.BinaryProtocol, typ thrift.Type, out *[]byte) error {
 	*out = append(*out, '"')
 	l := len(*out)
 	if cap(*out)-l < types.MaxInt64StringLen {
@@ -178,7 +190,11 @@ func appendInt(p *thrift.BinaryProtocol, typ thrift.Type, out *[]byte) error {
 		if err != nil {
 			return err
 		}
-		*out = json.EncodeInt64(*out, int64(i))
+		if byteAsUint8(ctx) {
+			*out = json.EncodeInt64(*out, int64(i))
+		} else {
+			*out = json.EncodeInt64(*out, int64(int8(i)))
+		}
 	case thrift.I16:
 		i, err := p.ReadI16()
 		if err != nil {
